@@ -42,15 +42,15 @@ package tokenizer
 // Reported positions are 1-based and the line is one of the input's lines.
 //@ func (*Tokenizer).toSQLPosition
 //@   inherit
-//@   ensures result.Line >= 1 && result.Column >= 1
-//@   ensures implies(len(recv.lineStarts) >= 1, result.Line <= len(recv.lineStarts))
-//@   loop 1 invariant 0 <= i && line >= 1 && implies(len(t.lineStarts) >= 1, line <= len(t.lineStarts)) && implies(i == 0, line == 1)
-//@   loop 2 invariant column >= 1
+//@   ensures @C05 result.Line >= 1 && result.Column >= 1
+//@   ensures @C05 implies(len(recv.lineStarts) >= 1, result.Line <= len(recv.lineStarts))
+//@   loop 1 invariant @C05 0 <= i && line >= 1 && implies(len(t.lineStarts) >= 1, line <= len(t.lineStarts)) && implies(i == 0, line == 1)
+//@   loop 2 invariant @C05 column >= 1
 
 //@ func (*Tokenizer).getCurrentPosition
 //@   inherit
-//@   ensures result.Line >= 1 && result.Column >= 1
-//@   ensures implies(len(recv.lineStarts) >= 1, result.Line <= len(recv.lineStarts))
+//@   ensures @C05 result.Line >= 1 && result.Column >= 1
+//@   ensures @C05 implies(len(recv.lineStarts) >= 1, result.Line <= len(recv.lineStarts))
 
 // The readers are entered only with at least one byte left (nextToken checks it).
 //@ func (*Tokenizer).readIdentifier
@@ -78,17 +78,17 @@ package tokenizer
 // Entry points: the size limit is checked before anything else; the main loop (a closure) keeps the cursor
 // inside the input, never holds more than MaxTokens tokens, and terminates (variant: bytes left).
 //@ func (*Tokenizer).Tokenize$1
-//@   loop 1 invariant forall(k, 0, len(tokens), tokens[k].Token.Type != models.TokenTypeEOF)
+//@   loop 1 invariant @C04 forall(k, 0, len(tokens), tokens[k].Token.Type != models.TokenTypeEOF)
 //@   loop 1 invariant tz_ok(t) && len(tokens) <= MaxTokens
 //@   loop 1 decreases len(t.input) - t.pos.Index
 //@ func (*Tokenizer).TokenizeContext$1
-//@   loop 1 invariant forall(k, 0, len(tokens), tokens[k].Token.Type != models.TokenTypeEOF)
+//@   loop 1 invariant @C04 forall(k, 0, len(tokens), tokens[k].Token.Type != models.TokenTypeEOF)
 //@   loop 1 invariant tz_ok(t) && len(tokens) <= MaxTokens
 //@   loop 1 decreases len(t.input) - t.pos.Index
 
 //@ func (*Tokenizer).Tokenize
-//@   ensures  implies(err == nil, len(result) >= 1 && result[len(result)-1].Token.Type == models.TokenTypeEOF)
-//@   ensures  implies(err == nil, forall(k, 0, len(result)-1, result[k].Token.Type != models.TokenTypeEOF))
+//@   ensures  @C04 implies(err == nil, len(result) >= 1 && result[len(result)-1].Token.Type == models.TokenTypeEOF)
+//@   ensures  @C04 implies(err == nil, forall(k, 0, len(result)-1, result[k].Token.Type != models.TokenTypeEOF))
 //@   ensures  implies(len(input) > MaxInputSize, err != nil)
 //@   ensures  implies(err == nil, len(result) <= MaxTokens + 1)
 //@   ensures  @C13 implies(err != nil, structured(err) || isctx(err))
@@ -97,8 +97,8 @@ package tokenizer
 //@   loop 1 invariant 0 <= i && t.input == input && t.pos.Index == 0
 
 //@ func (*Tokenizer).TokenizeContext
-//@   ensures  implies(err == nil, len(result) >= 1 && result[len(result)-1].Token.Type == models.TokenTypeEOF)
-//@   ensures  implies(err == nil, forall(k, 0, len(result)-1, result[k].Token.Type != models.TokenTypeEOF))
+//@   ensures  @C04 implies(err == nil, len(result) >= 1 && result[len(result)-1].Token.Type == models.TokenTypeEOF)
+//@   ensures  @C04 implies(err == nil, forall(k, 0, len(result)-1, result[k].Token.Type != models.TokenTypeEOF))
 //@   ensures  implies(len(input) > MaxInputSize, err != nil)
 //@   ensures  implies(err == nil, len(result) <= MaxTokens + 1)
 //@   ensures  @C13 implies(err != nil, structured(err) || isctx(err))
